@@ -276,11 +276,17 @@ impl FromStr for HLCTimestamp {
             .and_then(|v| v.parse::<u8>().ok())
             .ok_or(InvalidFormat)?;
 
-        Ok(Self::new(
-            parts_as_duration(seconds, fractional),
-            counter,
-            node,
-        ))
+        // Out of range values are a malformed input, not a reason to panic in `new`.
+        if seconds > TIMESTAMP_MAX {
+            return Err(InvalidFormat);
+        }
+
+        let duration = parts_as_duration(seconds, fractional);
+        if duration.as_secs() > TIMESTAMP_MAX {
+            return Err(InvalidFormat);
+        }
+
+        Ok(Self::new(duration, counter, node))
     }
 }
 
